@@ -182,33 +182,43 @@ def peqv(t, x, y):
     return x == y
 
 
-def oracle_A(ops):
+def oracle_A(ops, stats=None):
     st = [None] * NS                # None = dead, "e" = empty, (t, v)
+    def bump(k):
+        if stats is not None: stats[k] = stats.get(k, 0) + 1
     def dump():
         return ",".join("-" if w is None else ("e" if w == "e" else "%d:%d" % w) for w in st)
     res = []
     for tok in ops:
         f = tok.split(":"); c = f[0]; i = int(f[1]); wi = st[i]; out = "ok"
-        if c in ("cd", "cv", "cc"):
+        if c in ("cd", "cv", "cc", "mc"):           # mc: Any has no move constructor, an rvalue is copied
             if wi is not None: out = "ill"
             elif c == "cd": st[i] = "e"
-            elif c == "cv": st[i] = (int(f[2]), int(f[3]))
+            elif c == "cv": st[i] = (int(f[2]), int(f[3])); bump("new_handle")
             else:
                 wj = st[int(f[2])]
                 if wj is None: out = "ill"
-                else: st[i] = wj
+                else:
+                    st[i] = wj
+                    if wj != "e": bump("clone")
         elif wi is None: out = "ill"
         elif c == "d": st[i] = None
-        elif c == "av": st[i] = (int(f[2]), int(f[3]))
-        elif c in ("ac", "eq", "ne"):
+        elif c == "av": st[i] = (int(f[2]), int(f[3])); bump("new_handle")
+        elif c in ("ac", "ma", "eq", "ne"):           # ma: no move assignment either
             wj = st[int(f[2])]
             if wj is None: out = "ill"
-            elif c == "ac": st[i] = wj
+            elif c in ("ac", "ma"):
+                st[i] = wj
+                if wj != "e": bump("clone")
             else:
                 if wi == "e" or wj == "e": r = (wi == "e" and wj == "e")
-                else: r = wi[0] == wj[0] and wi[0] != 4 and peqv(wi[0], wi[1], wj[1])
+                else:
+                    r = wi[0] == wj[0] and wi[0] != 4 and peqv(wi[0], wi[1], wj[1])
+                    bump("isSame_noeq" if wi[0] == 4 else "isSame_eq")
                 out = "true" if (r if c == "eq" else not r) else "false"
-        elif c == "get": out = "val=%d" % wi[1] if wi != "e" and wi[0] == int(f[2]) else "throw"
+        elif c == "get":
+            out = "val=%d" % wi[1] if wi != "e" and wi[0] == int(f[2]) else "throw"
+            bump("get_ok" if out != "throw" else "get_throw")
         elif c == "set":
             if wi != "e" and wi[0] == int(f[2]): st[i] = (wi[0], int(f[3]))
             else: out = "throw"
@@ -343,13 +353,14 @@ def gen_A(r, maxlen):
             c = r.random()
             if c < 0.3: ops.append("cd:%d" % i)
             elif c < 0.7 or not others: ops.append("cv:%d:%d:%d" % (i, t, v))
-            else: ops.append("cc:%d:%d" % (i, r.choice(others)))
+            else: ops.append("%s:%d:%d" % (r.choice(["cc", "cc", "mc"]), i, r.choice(others)))
             alive[i] = True
             continue
         c = r.random()
         j = r.choice(others)
         if c < 0.12: ops.append("av:%d:%d:%d" % (i, t, v))
-        elif c < 0.26: ops.append("ac:%d:%d" % (i, j))
+        elif c < 0.22: ops.append("ac:%d:%d" % (i, j))
+        elif c < 0.26: ops.append("ma:%d:%d" % (i, j))
         elif c < 0.40: ops.append("get:%d:%d" % (i, t))
         elif c < 0.52: ops.append("set:%d:%d:%d" % (i, t, v))
         elif c < 0.58: ops.append("is:%d:%d" % (i, t))
@@ -361,7 +372,7 @@ def gen_A(r, maxlen):
     return "A " + " ".join(ops)
 
 
-ALPHA_A = ["cd:0", "cv:0:0:5", "cv:1:0:5", "cv:1:2:5", "cv:2:4:5", "cc:1:0", "cc:2:0", "ac:0:1", "ac:1:0", "ac:0:0", "av:0:2:7",
+ALPHA_A = ["mc:2:0", "mc:2:1", "ma:1:0", "ma:0:1", "cd:0", "cv:0:0:5", "cv:1:0:5", "cv:1:2:5", "cv:2:4:5", "cc:1:0", "cc:2:0", "ac:0:1", "ac:1:0", "ac:0:0", "av:0:2:7",
            "get:0:0", "get:0:2", "get:1:0", "set:1:0:9", "set:0:0:9", "eq:0:1", "eq:1:0", "ne:0:1", "eq:0:0", "eq:2:2", "str:0",
            "str:1", "d:0", "valid:0", "is:0:0",
            "cv:0:6:0", "cv:1:6:1", "cv:0:6:2", "cv:1:6:2", "get:0:6", "cv:0:7:17", "cv:1:7:18", "get:0:7", "ac:1:1", "ne:1:1"]
@@ -546,6 +557,167 @@ def facts_report(ctx, facts, res):
     ctx.log("   " + sem_txt)
     ctx.broken.append("source-derived micro-op table differs from the model: " + "; ".join(details)[:1500] + " -- " + sem_txt)
 
+# ------------------------------------------------------------------ inventory closure
+# Every declaration of Optional.h, Any.h, getEnvVar.h and rktraits.h (enumerated from the clang AST on every run by
+# factgen.inventory: namespace-level functions / operators / templates / aliases, class members incl. constructors,
+# conversion operators, fields, nested classes and their members) -> the Coq obligations and the harness execution
+# counters that cover it, or an out-of-scope reason tied to the property text.  The check fails closed on a
+# declaration missing here, on an entry whose declaration vanished / changed signature, and on a covered entry with
+# zero executions in this run.
+# counters: "O:<tok>" / "A:<tok>" = executed history steps with that harness token (summed over payload families and
+# placements), "O:steps" / "O:histories" (every step dumps has_value()/value() of every wrapper; every history ends by
+# destroying the living wrappers), oracle-derived "A:clone", "A:new_handle", "A:isSame_eq", "A:isSame_noeq",
+# "A:get_ok", "A:get_throw", "facts" (the source-derived fact tables were extracted and their obligations hold).
+HIST = "optional_history, optional_step_refines, optional_destroyed_exactly_once; facts_optional_members + model_functions_are_table_programs"
+ANYH = "any_compare_print_total, any_get_exact_type, any_copy_is_exact, any_holder_freed_exactly_once; facts_any_members"
+OUT_TRAITS = "index / tasking / conversion trait not used by Optional, Any or getEnvVar: the property does not speak of it (listed so that a NEW trait is noticed)"
+COVER = {
+    "utility::template<T> struct Optional": dict(thm=HIST, ops=["O:steps"]),
+    "Optional<T>::Optional() = default": dict(thm="facts_optional_members (MDefCtor, mf_fresh of every constructor); " + HIST, ops=["O:cd"]),
+    "Optional<T>::Optional(const Optional<T> &)": dict(thm="MCtorCopy; optional_copies_independent, optional_transfer_is_payload_copy", ops=["O:cc"]),
+    "Optional<T>::template<U> Optional(const Optional<U> &)": dict(thm="MCtorConvCopy; optional_copies_independent", ops=["O:xc"]),
+    "Optional<T>::Optional(Optional<T> &&)": dict(thm="MCtorMove; optional_move_ctor_constructs", ops=["O:cm"]),
+    "Optional<T>::template<U> Optional(Optional<U> &&)": dict(thm="MCtorConvMove; optional_move_ctor_constructs", ops=["O:xm"]),
+    "Optional<T>::Optional(const T &)": dict(thm="MCtorValue; optional_last_op_gives", ops=["O:cv"]),
+    "Optional<T>::~Optional()": dict(thm="MDtor; optional_destroyed_exactly_once, optional_closed_clean", ops=["O:d", "O:histories"]),
+    "Optional<T>::Optional<T> & operator=(const Optional<T> &)": dict(thm="MAssignCopy; optional_assign_from_empty, optional_assign_copy_exact, optional_self_assign", ops=["O:ac"]),
+    "Optional<T>::Optional<T> & operator=(Optional<T> &&)": dict(thm="MAssignMove; optional_assign_from_empty", ops=["O:am"]),
+    "Optional<T>::template<U> Optional<T> & operator=(U &&)": dict(thm="MAssignValue; optional_last_op_gives", ops=["O:av"]),
+    "Optional<T>::template<U> Optional<T> & operator=(const Optional<U> &)": dict(thm="MAssignConvCopy; optional_assign_from_empty", ops=["O:xac"]),
+    "Optional<T>::template<U> Optional<T> & operator=(Optional<U> &&)": dict(thm="MAssignConvMove (copies the payload); optional_assign_from_empty", ops=["O:xam"]),
+    "Optional<T>::const T * operator->() const": dict(thm="facts_optional_accessors (om_deref_value); optional_observers", ops=["O:val", "O:steps"]),
+    "Optional<T>::T * operator->()": dict(thm="facts_optional_accessors (om_deref_value)", ops=["O:val"]),
+    "Optional<T>::const T & operator*() const": dict(thm="facts_optional_accessors (om_deref_value); optional_observers", ops=["O:val", "O:steps"]),
+    "Optional<T>::T & operator*()": dict(thm="facts_optional_accessors (om_deref_value)", ops=["O:val"]),
+    "Optional<T>::bool has_value() const": dict(thm="facts_optional_accessors (om_has_value_flag); optional_observers, optional_live_iff_flag", ops=["O:hv", "O:steps"]),
+    "Optional<T>::operator bool() const": dict(thm="facts_optional_accessors (om_bool_has_value); optional_compare_total", ops=["O:hv", "O:val"]),
+    "Optional<T>::const T & value() const": dict(thm="facts_optional_accessors (om_value_storage); optional_observers", ops=["O:val"]),
+    "Optional<T>::T & value()": dict(thm="facts_optional_accessors (om_value_storage); every OAssign/ODtor micro-op goes through it", ops=["O:val", "O:em"]),
+    "Optional<T>::template<U> T value_or(U &&) const": dict(thm="facts_optional_accessors (om_value_or_guarded); optional_observers", ops=["O:vo"]),
+    "Optional<T>::void reset()": dict(thm="MReset; optional_destroyed_exactly_once", ops=["O:rs"]),
+    "Optional<T>::template<...Args> T & emplace(Args &&...)": dict(thm="MEmplace; optional_last_op_gives", ops=["O:em", "O:cv", "O:mk"]),
+    "Optional<T>::std::string toString() const": dict(thm="facts_optional_accessors (om_tostring_const); optional_print_total", ops=["O:str"]),
+    "Optional<T>::void default_construct_storage_if_needed()": dict(thm="MDcsin (private helper of every assignment)", ops=["O:av", "O:ac"]),
+    "Optional<T>::storage : alignas std::array<rkcommon::byte_t, sizeof(T)>": dict(thm="facts_optional_layout, optional_aligned_from_source, source_optional_storage_aligned", ops=["O:steps", "facts"]),
+    "Optional<T>::hasValue : bool": dict(thm="facts_optional_layout (lf_flag_default_false); optional_live_iff_flag", ops=["O:steps"]),
+    "utility::template<T,U> bool operator==(const Optional<T> &, const Optional<U> &)": dict(thm="facts_optional_comparisons; optional_compare_total (same and mixed payload types)", ops=["O:eq"]),
+    "utility::template<T,U> bool operator!=(const Optional<T> &, const Optional<U> &)": dict(thm="facts_optional_comparisons (CmpNotEq); optional_compare_total", ops=["O:ne"]),
+    "utility::template<T,U> bool operator<(const Optional<T> &, const Optional<U> &)": dict(thm="facts_optional_comparisons; optional_compare_total", ops=["O:lt"]),
+    "utility::template<T,U> bool operator<=(const Optional<T> &, const Optional<U> &)": dict(thm="facts_optional_comparisons; optional_compare_total", ops=["O:le"]),
+    "utility::template<T,U> bool operator>(const Optional<T> &, const Optional<U> &)": dict(thm="facts_optional_comparisons; optional_compare_total", ops=["O:gt"]),
+    "utility::template<T,U> bool operator>=(const Optional<T> &, const Optional<U> &)": dict(thm="facts_optional_comparisons; optional_compare_total", ops=["O:ge"]),
+    "utility::template<T,...Args> Optional<T> make_optional(Args &&...)": dict(thm="MMakeOptional; optional_last_op_gives (instantiated with one argument: const T &, and T && for the move-only payload)", ops=["O:mk"]),
+    "utility::struct Any": dict(thm=ANYH, ops=["A:steps"]),
+    "Any::Any() = default": dict(thm="any_last_op_gives (ACtorDefault)", ops=["A:cd"]),
+    "Any::Any(const rkcommon::utility::Any &)": dict(thm="AMCopyCtor (TInitCloneIfValid); any_copy_is_exact, any_copies_independent; also selected for rvalues and non-const lvalues (facts_any_no_move_members)", ops=["A:cc", "A:mc"]),
+    "Any::template<T> Any(T)": dict(thm="AMValueCtor; any_last_op_gives", ops=["A:cv"]),
+    "Any::~Any() noexcept = default": dict(thm="AMDtor (TDefaulted); any_holder_freed_exactly_once, any_closed_all_dead", ops=["A:d", "A:histories"]),
+    "Any::rkcommon::utility::Any & operator=(const rkcommon::utility::Any &)": dict(thm="AMCopyAssign; any_copy_is_exact, any_skip_if_equal_refuted; also selected for rvalues (facts_any_no_move_members)", ops=["A:ac", "A:ma"]),
+    "Any::template<T> rkcommon::utility::Any & operator=(T)": dict(thm="AMValueAssign; any_last_op_gives", ops=["A:av"]),
+    "Any::bool operator==(const rkcommon::utility::Any &) const": dict(thm="AMEq; any_compare_total, source_any_compare_guarded", ops=["A:eq"]),
+    "Any::bool operator!=(const rkcommon::utility::Any &) const": dict(thm="AMNe; any_compare_total", ops=["A:ne"]),
+    "Any::template<T> T & get()": dict(thm="AMGet; any_get_exact_type, source_any_get_guarded (mutation through the reference: ASet)", ops=["A:set"]),
+    "Any::template<T> const T & get() const": dict(thm="AMGetConst; any_get_exact_type, source_any_get_guarded", ops=["A:get", "A:steps"]),
+    "Any::template<T> bool is() const": dict(thm="AMIs; any_get_exact_type", ops=["A:is", "A:steps"]),
+    "Any::bool valid() const": dict(thm="AMValid; any_get_exact_type", ops=["A:valid", "A:steps"]),
+    "Any::std::string toString() const": dict(thm="AMToString; any_print_total, source_any_print_guarded", ops=["A:str"]),
+    "Any::struct handle_base": dict(thm="holder model of Model.v (holder = id, tag, value)", ops=["A:new_handle"]),
+    "Any::handle_base::virtual ~handle_base() noexcept = default": dict(thm="any_holder_freed_exactly_once (the derived holder's payload is destroyed through the base: instrumented payload balance)", ops=["A:d", "A:histories"]),
+    "Any::handle_base::virtual rkcommon::utility::Any::handle_base * clone() const = 0": dict(thm="a_clone; any_copy_is_exact, any_holders_unique", ops=["A:clone"]),
+    "Any::handle_base::virtual const std::type_info & valueTypeID() const = 0": dict(thm="h_tag; any_get_exact_type, any_print_total", ops=["A:is", "A:str", "A:steps"]),
+    "Any::handle_base::virtual bool isSame(rkcommon::utility::Any::handle_base *) const = 0": dict(thm="is_same; any_compare_total", ops=["A:isSame_eq", "A:isSame_noeq"]),
+    "Any::handle_base::virtual void * data() = 0": dict(thm="h_val; any_get_exact_type", ops=["A:get_ok", "A:set"]),
+    "Any::template<T> struct handle : rkcommon::utility::Any::handle_base": dict(thm="holder model of Model.v", ops=["A:new_handle"]),
+    "Any::handle<T>::handle(T)": dict(thm="a_new; any_no_double_free", ops=["A:new_handle", "A:clone"]),
+    "Any::handle<T>::rkcommon::utility::Any::handle_base * clone() const": dict(thm="a_clone; any_copy_is_exact", ops=["A:clone"]),
+    "Any::handle<T>::const std::type_info & valueTypeID() const": dict(thm="h_tag; any_get_exact_type", ops=["A:is", "A:str", "A:steps"]),
+    "Any::handle<T>::bool isSame(rkcommon::utility::Any::handle_base *) const": dict(thm="facts_traits_operator_equals (tf_same_dispatch); is_same", ops=["A:isSame_eq", "A:isSame_noeq"]),
+    "Any::handle<T>::void * data()": dict(thm="h_val; any_get_exact_type", ops=["A:get_ok", "A:set"]),
+    "Any::handle<T>::value : T": dict(thm="h_val; any_copy_is_exact (bit-exact stored state)", ops=["A:steps"]),
+    "Any::handle<T>::template<TYPE> traits::HasOperatorEquals<TYPE, bool> isSameImpl(rkcommon::utility::Any::handle_base *) const":
+        dict(thm="facts_traits_operator_equals (tf_impl_eq_shape); is_same with peqv; any_payload_eq_coarser_than_identity", ops=["A:isSame_eq"]),
+    "Any::handle<T>::template<TYPE> traits::NoOperatorEquals<TYPE, bool> isSameImpl(rkcommon::utility::Any::handle_base *) const":
+        dict(thm="facts_traits_operator_equals (tf_impl_noeq_false); source_any_noeq_payload_compares_false", ops=["A:isSame_noeq"]),
+    "Any::currentValue : std::unique_ptr<handle_base>": dict(thm="facts_any_holder_unique; any_holders_unique, any_holder_freed_exactly_once", ops=["A:steps"]),
+    "utility::template<T> Optional<T> getEnvVar(const std::string &)":
+        dict(thm="facts_getenv_generic_empty (its static_assert rejects every T but the three specialised ones: it cannot be executed)", ops=["facts"]),
+    "utility::template<> Optional<float> getEnvVar(const std::string &)": dict(thm="facts_getenv_specialisations (KFloat); getenv_engaged_iff_set", ops=["O:gv:1"]),
+    "utility::template<> Optional<int> getEnvVar(const std::string &)": dict(thm="facts_getenv_specialisations (KInt); getenv_engaged_iff_set", ops=["O:gv:0"]),
+    "utility::template<> Optional<std::string> getEnvVar(const std::string &)": dict(thm="facts_getenv_specialisations (KStr); getenv_engaged_iff_set", ops=["O:gv:2"]),
+    "traits::using byte_t = unsigned char": dict(thm="facts_optional_layout (lf_elem_bytes = 1: the storage array's element type)", ops=["facts", "O:steps"]),
+    "traits::template<T,Arg> std::true_type operator==(const T &, const Arg &)":
+        dict(thm="facts_traits_operator_equals (fallback found only when T has no operator==: tf_eq_noeq = false, tf_eq_* = true)", ops=["facts", "A:isSame_noeq"]),
+    "traits::template<T,Arg> struct HasOperatorEqualsT": dict(thm="facts_traits_operator_equals", ops=["facts", "A:isSame_eq", "A:isSame_noeq"]),
+    "HasOperatorEqualsT<T,Arg>::enum {value}": dict(thm="facts_traits_operator_equals (evaluated by the compiler for int, std::string, the payload, a struct without ==)", ops=["facts"]),
+    "traits::template<T,TYPE> using HasOperatorEquals": dict(thm="facts_traits_operator_equals (selects the comparing isSameImpl)", ops=["facts", "A:isSame_eq"]),
+    "traits::template<T,TYPE> using NoOperatorEquals": dict(thm="source_any_noeq_payload_compares_false (selects the constant-false isSameImpl)", ops=["facts", "A:isSame_noeq"]),
+    "traits::template<bool B,T> using enable_if_t": dict(scope=OUT_TRAITS),
+    "traits::template<T> struct is_valid_index": dict(scope=OUT_TRAITS),
+    "is_valid_index<T>::TypeAliasDecl TYPE": dict(scope=OUT_TRAITS),
+    "is_valid_index<T>::enum {value}": dict(scope=OUT_TRAITS),
+    "traits::template<TASK> struct has_operator_method": dict(scope=OUT_TRAITS),
+    "has_operator_method<TASK>::TypeAliasDecl TASK_T": dict(scope=OUT_TRAITS),
+    "has_operator_method<TASK>::template<_,_> struct checker": dict(scope=OUT_TRAITS),
+    "has_operator_method<TASK>::template<C> std::true_type test(checker<C, decltype(&C::operator())> *)": dict(scope=OUT_TRAITS),
+    "has_operator_method<TASK>::template<C> std::false_type test(...)": dict(scope=OUT_TRAITS),
+    "has_operator_method<TASK>::TypeAliasDecl type": dict(scope=OUT_TRAITS),
+    "has_operator_method<TASK>::VarDecl value": dict(scope=OUT_TRAITS),
+    "traits::template<TASK,EXPECTED_PARAM_T> struct has_operator_method_matching_param": dict(scope=OUT_TRAITS),
+    "has_operator_method_matching_param<TASK,EXPECTED_PARAM_T>::TypeAliasDecl TASK_T": dict(scope=OUT_TRAITS),
+    "has_operator_method_matching_param<TASK,EXPECTED_PARAM_T>::TypeAliasTemplateDecl t_param": dict(scope=OUT_TRAITS),
+    "has_operator_method_matching_param<TASK,EXPECTED_PARAM_T>::TypeAliasDecl operator_t": dict(scope=OUT_TRAITS),
+    "has_operator_method_matching_param<TASK,EXPECTED_PARAM_T>::TypeAliasDecl valid_param": dict(scope=OUT_TRAITS),
+    "has_operator_method_matching_param<TASK,EXPECTED_PARAM_T>::VarDecl value": dict(scope=OUT_TRAITS),
+    "traits::template<DERIVED,BASE> using is_base_of_t": dict(scope=OUT_TRAITS),
+    "traits::template<T> using is_class_t": dict(scope=OUT_TRAITS),
+    "traits::template<T1,T2> using is_not_same_t": dict(scope=OUT_TRAITS),
+    "traits::template<FROM,TO> using can_convert": dict(scope=OUT_TRAITS),
+    "traits::template<FROM,TO> using can_convert_t": dict(scope=OUT_TRAITS),
+    "traits::template<T> using is_arithmetic_t": dict(scope=OUT_TRAITS),
+    "traits::template<T1,T2> using is_not_same_and_arithmetic_t": dict(scope=OUT_TRAITS),
+}
+
+
+def tally(counters, cases, mult, dom):
+    for c in cases:
+        toks = c.split()[1:]
+        counters[dom + ":steps"] = counters.get(dom + ":steps", 0) + mult * len(toks)
+        counters[dom + ":histories"] = counters.get(dom + ":histories", 0) + mult
+        for t in toks:
+            f = t.split(":")
+            k = dom + ":" + f[0]
+            counters[k] = counters.get(k, 0) + mult
+            if f[0] == "gv":
+                k = "O:gv:" + f[2]
+                counters[k] = counters.get(k, 0) + mult
+
+
+def inventory_check(ctx, facts, counters, facts_ok):
+    inv = facts.get("inventory") or []
+    counters["facts"] = 1 if facts_ok else 0
+    rep = {}
+    if not inv:
+        ctx.broken.append("inventory: no declarations enumerated from the AST")
+    for d in inv:
+        if d not in COVER:
+            ctx.broken.append("inventory: the anchored headers declare `%s`, which props/C09/check.py COVER does not list "
+                              "(new or changed member / overload / trait: model, facts and harness do not cover it)" % d)
+            rep[d] = "NOT IN COVER"
+            continue
+        e = COVER[d]
+        if "scope" in e:
+            rep[d] = "out of scope: " + e["scope"]
+            continue
+        n = sum(counters.get(k, 0) for k in e["ops"])
+        rep[d] = {"executions": n, "by": {k: counters.get(k, 0) for k in e["ops"]}, "obligations": e["thm"]}
+        if n == 0:
+            ctx.broken.append("inventory: `%s` is covered by %s but was executed 0 times in this run" % (d, e["ops"]))
+    for d in COVER:
+        if d not in inv:
+            ctx.broken.append("inventory: COVER lists `%s`, which the headers no longer declare with that signature" % d)
+    ctx.cov["inventory"] = rep
+    ctx.cov["inventory_size"] = len(inv)
+
 
 def run(ctx):
     if getattr(ctx, "replay", None):
@@ -553,6 +725,9 @@ def run(ctx):
     facts = regen_facts(ctx)
     res = ctx.coq_check(("Properties.v", "PropertiesFacts.v", "PropertiesFactsSem.v"))
     facts_report(ctx, facts, res)
+    facts_ok = all(res.get(t) for t in FACT_THMS) and bool(res.get("facts_any_no_move_members"))
+    counters = {}
+    src_facts = facts
     model = ctx.extract(snippets=["conv_N.ml"])
     exes = ctx.cxx_many([
         dict(sources=["harness.cpp"], out="harness", repo_sources=REPO_SRC, sanitize="asan"),
@@ -649,6 +824,7 @@ def run(ctx):
             impls.append(("Optional<%s>" % fam, exe, [fam]))
             impls.append(("Optional<%s>@odd-offset" % fam, exe_odd, [fam]))
         mism, crashes, mlines = vlib.differential(ctx, o_cases, model, impls, model_args=[form, mz, "fixed", pk])
+        tally(counters, o_cases, len(impls), "O")
         ctx.count(len(o_cases) * len(impls))
         ctx.cov["mismatches_%s_%s_%s" % (form, mz, pk[3:])] = len(mism)
         for label, ex, args in impls:
@@ -661,6 +837,12 @@ def run(ctx):
     # ---- Any histories
     impls = [("Any", exe, ["trk"])]
     mism, crashes, mlines = vlib.differential(ctx, a_cases, model, impls, model_args=["fixed"])
+    tally(counters, a_cases, 1, "A")
+    ast_ = {}
+    for c in a_cases:
+        oracle_A(c.split()[1:], ast_)
+    for k, v in ast_.items():
+        counters["A:" + k] = v
     ctx.count(len(a_cases))
     ctx.cov["mismatches_any"] = len(mism)
 
@@ -672,6 +854,7 @@ def run(ctx):
     for fam, extra in (("ks", ks_extra), ("dbl", dbl_extra)):
         impls = [("Optional<%s>+shadow" % fam, exe, [fam]), ("Optional<%s>+shadow@odd-offset" % fam, exe_odd, [fam])]
         mism, crashes, mlines = vlib.differential(ctx, extra, model, impls, model_args=["plain", "mvz0", "fixed"])
+        tally(counters, extra, len(impls), "O")
         ctx.count(len(extra) * len(impls))
         ctx.cov["mismatches_%s_shadow" % fam] = len(mism)
         for c in extra[:len(o_rand_raw)]:
@@ -689,6 +872,7 @@ def run(ctx):
         ["O " + " ".join(rm.choice(ALPHA_MOV) for _ in range(rm.randint(4, 14))) for _ in range(ctx.pick(1500, 12000))]
     impls = [("Optional<move-only>", exe, ["mov"]), ("Optional<move-only>@odd-offset", exe_odd, ["mov"])]
     mism, crashes, mlines = vlib.differential(ctx, mcases, model, impls, model_args=["full", "mvz1", "fixed", "pk=full"])
+    tally(counters, mcases, len(impls), "O")
     ctx.count(len(mcases) * len(impls))
     ctx.cov["mismatches_move_only"] = len(mism)
     for label, ex, args in impls:
@@ -705,6 +889,7 @@ def run(ctx):
         impls = [("getEnvVar<%s>" % {0: "int", 1: "float", 2: "string"}[kind], exe, [fam]),
                  ("getEnvVar<%s>@odd-offset" % {0: "int", 1: "float", 2: "string"}[kind], exe_odd, [fam])]
         mism, crashes, mlines = vlib.differential(ctx, ecases, model, impls, model_args=["plain", mz, "fixed"])
+        tally(counters, ecases, len(impls), "O")
         ctx.count(len(ecases) * len(impls))
         ctx.cov["mismatches_env_%s" % fam] = len(mism)
         for c in ecases:
@@ -725,6 +910,8 @@ def run(ctx):
                            "optional_shadowed_ks": len(ks_extra), "optional_signed_zero_dbl": len(dbl_extra),
                            "any_random": len(a_rand), "any_exhaustive": len(a_exh), "payload_families": [f[0] for f in FAMS],
                            "placements": ["64-byte aligned slot", "struct{char; Optional<T>} (odd offset when alignment is 1)"]})
+    # ---- inventory closure: AST declarations vs COVER, with the execution counts of this run
+    inventory_check(ctx, src_facts, counters, facts_ok)
     ctx.rule = ("Optional: random histories (length<=30, 4 wrapper slots, both payload types T and convertible U, sources biased to be empty "
                 "half of the time) + all histories of length<=%d over a %d-op alphabet + all continuations of length<=%d (%d-op alphabet) of "
                 "a 3-wrapper preamble; getEnvVar<int|float|string>: random histories mixing setenv/unsetenv/getEnvVar (the empty string, 30+ character strings, decimal spellings with blanks/sign/trailing junk, -0.0, a name never set) with the Optional operations + all histories of length<=3 over a 21-op alphabet per kind; each on 9 payload families x 2 placements (three instrumented kinds along the trait lattice, event-exact against the model's observed trace: everything user-provided; trivially destructible with user-provided copy/move and a self-pointer; destructor-only with trivial copies; plus a move-only payload on the members that do not copy) under ASan+UBSan (payload codes are 4*key+shadow; the {key,shadow} struct compared on key and double/float with +0.0/-0.0 additionally get histories with shadowed codes, full stored state printed after every step). Any: random histories (length<=30, 8 "
